@@ -24,7 +24,13 @@ func init() {
 			// 1. sources
 			wantSrc := map[string]bool{"DefaultBuiltins": false, "DefaultSpecialOps": false, "DefaultMacros": false}
 			otherLisp := []string{}
-			for _, ce := range callsIn(fd.Body, true) {
+			// the table builder and the private helpers it is split into
+			family := c.withHelpers(u)
+			var famCalls []*ast.CallExpr
+			for _, hu := range family {
+				famCalls = append(famCalls, callsIn(hu.Decl.Body, true)...)
+			}
+			for _, ce := range famCalls {
 				f := Callee(info, ce)
 				if f == nil || f.Pkg() == nil || rel(f.Pkg().Path()) != "lisp" {
 					continue
@@ -57,18 +63,39 @@ func init() {
 				}
 			}
 			got := map[string]bool{}
-			ast.Inspect(fd.Body, func(n ast.Node) bool {
-				cc, ok := n.(*ast.CaseClause)
-				if !ok {
-					return true
-				}
-				for _, e := range cc.List {
-					if s, ok := constStringVal(info, e); ok && strings.HasPrefix(s, "&") {
-						got[s] = true
+			// the counting unit: the function (or literal) of the family whose switch names the control
+			// symbols; the flag each symbol sets
+			var cntUnit FuncUnit
+			var cntSwitch *ast.SwitchStmt
+			flagOf := map[string]types.Object{}
+			for _, hu := range family {
+				hu := hu
+				ast.Inspect(hu.Decl.Body, func(n ast.Node) bool {
+					sw, ok := n.(*ast.SwitchStmt)
+					if !ok {
+						return true
 					}
-				}
-				return true
-			})
+					for _, cl := range sw.Body.List {
+						cc := cl.(*ast.CaseClause)
+						for _, e := range cc.List {
+							if s, ok := constStringVal(info, e); ok && strings.HasPrefix(s, "&") {
+								got[s] = true
+								cntUnit, cntSwitch = hu, sw
+								for _, st := range cc.Body {
+									if as, ok := st.(*ast.AssignStmt); ok && len(as.Lhs) == 1 && len(as.Rhs) == 1 {
+										if id, ok := ast.Unparen(as.Rhs[0]).(*ast.Ident); ok && id.Name == "true" {
+											if role, ok := want[s]; ok && len(cc.List) == 1 {
+												flagOf[role] = identObj(info, as.Lhs[0])
+											}
+										}
+									}
+								}
+							}
+						}
+					}
+					return true
+				})
+			}
 			okSyms := len(got) == len(want)
 			for s := range want {
 				if !got[s] {
@@ -80,34 +107,72 @@ func init() {
 			} else {
 				obs = append(obs, mkOb(c, "ARITY.table-shape", u, "control symbols", fd, Violated, "the control symbols lint switches on differ from the binder's", true))
 			}
-			// 3. counting rule inside the parseFormals literal
+			// 3. counting rule: in the counting unit, the flags are the variables the control-symbol
+			// cases set; the counters are the integers the default case increments — the one
+			// incremented under a test of the optional/key flags counts required arguments
+			if cntSwitch == nil {
+				obs = append(obs, mkOb(c, "ARITY.table-shape", u, "counting rule", fd, Undecided, "no switch over the control symbols found in the table builder", false))
+				return obs
+			}
 			var lit *ast.FuncLit
-			ast.Inspect(fd.Body, func(n ast.Node) bool {
-				if l, ok := n.(*ast.FuncLit); ok && lit == nil {
+			ast.Inspect(cntUnit.Decl.Body, func(n ast.Node) bool {
+				if l, ok := n.(*ast.FuncLit); ok && l.Pos() <= cntSwitch.Pos() && cntSwitch.End() <= l.End() {
 					lit = l
 				}
 				return true
 			})
-			if lit == nil {
-				obs = append(obs, mkOb(c, "ARITY.table-shape", u, "counting rule", fd, Undecided, "parseFormals literal not found", false))
-				return obs
+			fc := c.cfgOf(cntUnit, lit)
+			var litNode ast.Node = cntUnit.Decl
+			if lit != nil {
+				litNode = lit
 			}
-			fc := c.cfgOf(u, lit)
-			objByName := func(name string) types.Object {
-				var o types.Object
-				ast.Inspect(lit.Body, func(n ast.Node) bool {
-					if id, ok := n.(*ast.Ident); ok && id.Name == name && o == nil {
-						if d := info.Defs[id]; d != nil {
-							o = d
+			var maxFld types.Object = c.LookupField("lint.aritySpec.max")
+			optO, keyO, varO := flagOf["OptArgSymbol"], flagOf["KeyArgSymbol"], flagOf["VarArgSymbol"]
+			var minO, maxO types.Object
+			for _, cl := range cntSwitch.Body.List {
+				cc := cl.(*ast.CaseClause)
+				if cc.List != nil {
+					continue
+				}
+				var walk func(n ast.Node, underFlag bool)
+				walk = func(n ast.Node, underFlag bool) {
+					ast.Inspect(n, func(m ast.Node) bool {
+						switch x := m.(type) {
+						case *ast.IfStmt:
+							mentions := false
+							ast.Inspect(x.Cond, func(k ast.Node) bool {
+								if id, ok := k.(*ast.Ident); ok {
+									if o := info.Uses[id]; o != nil && (o == optO || o == keyO) {
+										mentions = true
+									}
+								}
+								return true
+							})
+							walk(x.Body, underFlag || mentions)
+							if x.Else != nil {
+								walk(x.Else, underFlag || mentions)
+							}
+							return false
+						case *ast.IncDecStmt:
+							if x.Tok == token.INC {
+								if o := identObj(info, x.X); o != nil {
+									if underFlag {
+										minO = o
+									} else {
+										maxO = o
+									}
+								}
+							}
 						}
-					}
-					return true
-				})
-				return o
+						return true
+					})
+				}
+				for _, st := range cc.Body {
+					walk(st, false)
+				}
 			}
-			minO, maxO, optO, keyO, varO := objByName("minArity"), objByName("maxArity"), objByName("inOptional"), objByName("inKey"), objByName("variadic")
 			if minO == nil || maxO == nil || optO == nil || keyO == nil || varO == nil {
-				obs = append(obs, mkOb(c, "ARITY.table-shape", u, "counting rule", lit, Undecided, "expected counters minArity/maxArity and flags inOptional/inKey/variadic", false))
+				obs = append(obs, mkOb(c, "ARITY.table-shape", u, "counting rule", litNode, Undecided, "expected two counters incremented by the default case and one flag set by each control-symbol case", false))
 				return obs
 			}
 			cls := func(e ast.Expr) (string, bool) {
@@ -133,9 +198,9 @@ func init() {
 				}
 			}
 			if okMin {
-				obs = append(obs, mkOb(c, "ARITY.table-shape", u, "required count", lit, Proved, "minArity++ only on an edge entailing !inOptional && !inKey", true))
+				obs = append(obs, mkOb(c, "ARITY.table-shape", u, "required count", litNode, Proved, "minArity++ only on an edge entailing !inOptional && !inKey", true))
 			} else {
-				obs = append(obs, mkOb(c, "ARITY.table-shape", u, "required count", lit, Violated, "an optional or keyword formal can be counted as required (lint would demand arguments the binder does not)", true))
+				obs = append(obs, mkOb(c, "ARITY.table-shape", u, "required count", litNode, Violated, "an optional or keyword formal can be counted as required (lint would demand arguments the binder does not)", true))
 			}
 			// max unbounded when variadic || inKey: the composite with max: -1 is on an edge entailing var||key
 			unb := fc.edgesEntailing(cls, func(v map[string]bool) bool { return v["var"] || v["key"] })
@@ -144,7 +209,7 @@ func init() {
 				found := false
 				ast.Inspect(n, func(m ast.Node) bool {
 					if kv, ok := m.(*ast.KeyValueExpr); ok {
-						if id, ok := kv.Key.(*ast.Ident); ok && id.Name == "max" {
+						if id, ok := kv.Key.(*ast.Ident); ok && info.Uses[id] == maxFld {
 							if k, okc := intConst(info, kv.Value); okc && k == -1 {
 								found = true
 							}
@@ -158,7 +223,7 @@ func init() {
 				found := false
 				ast.Inspect(n, func(m ast.Node) bool {
 					if kv, ok := m.(*ast.KeyValueExpr); ok {
-						if id, ok := kv.Key.(*ast.Ident); ok && id.Name == "max" && identObj(info, kv.Value) == maxO {
+						if id, ok := kv.Key.(*ast.Ident); ok && info.Uses[id] == maxFld && identObj(info, kv.Value) == maxO {
 							found = true
 						}
 					}
@@ -173,22 +238,19 @@ func init() {
 				}
 			}
 			if okMax {
-				obs = append(obs, mkOb(c, "ARITY.table-shape", u, "upper bound", lit, Proved, "a finite maximum is recorded only on an edge entailing !variadic && !inKey", true))
+				obs = append(obs, mkOb(c, "ARITY.table-shape", u, "upper bound", litNode, Proved, "a finite maximum is recorded only on an edge entailing !variadic && !inKey", true))
 			} else {
-				obs = append(obs, mkOb(c, "ARITY.table-shape", u, "upper bound", lit, Violated, "a &rest or &key signature can be given a finite maximum (lint would reject calls the binder accepts)", true))
+				obs = append(obs, mkOb(c, "ARITY.table-shape", u, "upper bound", litNode, Violated, "a &rest or &key signature can be given a finite maximum (lint would reject calls the binder accepts)", true))
 			}
 			// 4. deleted names have analyzers
 			var deleted []string
-			ast.Inspect(fd.Body, func(n ast.Node) bool {
-				if ce, ok := n.(*ast.CallExpr); ok {
-					if id, ok := ast.Unparen(ce.Fun).(*ast.Ident); ok && id.Name == "delete" && len(ce.Args) == 2 {
-						if s, ok := constStringVal(info, ce.Args[1]); ok {
-							deleted = append(deleted, s)
-						}
+			for _, ce := range famCalls {
+				if id, ok := ast.Unparen(ce.Fun).(*ast.Ident); ok && id.Name == "delete" && len(ce.Args) == 2 {
+					if s, ok := constStringVal(info, ce.Args[1]); ok {
+						deleted = append(deleted, s)
 					}
 				}
-				return true
-			})
+			}
 			analyzerNames := map[string]bool{}
 			if _, dfd, dpkg := c.LookupFunc("lint.DefaultAnalyzers"); dfd != nil {
 				ast.Inspect(dfd.Body, func(n ast.Node) bool {
